@@ -71,6 +71,10 @@ impl SatSolver for BufferedSatSolver {
         self.listeners
             .iter()
             .for_each(|l| l.solving_start(self.n_vars(), self.n_clauses));
+        // the assumptions are sent as unit clauses: their variables must be declared too
+        assumptions
+            .iter()
+            .for_each(|a| self.n_vars = usize::max(self.n_vars, usize::from(a.var())));
         let preamble = format!(
             "p cnf {} {}\n",
             self.n_vars,
